@@ -39,6 +39,7 @@ class Rig:
         self.kind = kind
         self.wire = wire or Wire(env)
         self.log: List[Any] = []
+        self._co_calls = 0
         self.perr_data = perr_data
         self.exc = exc
         kw: Dict[str, Any] = dict(self.wire.kwargs())
@@ -102,11 +103,12 @@ class Rig:
         fns = {'echo': echo, 'two': two, 'perr': perr, 'boom': boom}
         for name, fn in fns.items():
             if as_coroutines:
-                fn = _as_coro(fn)
+                fn = _as_coro(fn, self)
             self.d.add(fn, name=name)
 
     # -- driving ----------------------------------------------------------------------------------
     def dispatch_text(self, text, context=None):
+        self._co_calls = 0
         if self.kind == 'sync':
             return self.d.dispatch(text, context)
         return run_coro(self.d.dispatch(text, context))
@@ -120,12 +122,23 @@ class Rig:
         return self.wire.decode(text), codes
 
 
-def _as_coro(fn):
+def _as_coro(fn, rig=None):
     import functools
     import inspect
 
     @functools.wraps(fn)
     async def co(*args, **kwargs):
+        if rig is not None:
+            # adversarial but fixed schedule: the n-th call of a dispatch suspends (3 - n) times, so EARLIER batch elements
+            # finish LATER than later ones (completion order != request order)
+            # (the body runs first, so the execution log keeps request order; only COMPLETION order is reversed)
+            n = rig._co_calls
+            rig._co_calls += 1
+            try:
+                return fn(*args, **kwargs)
+            finally:
+                for _ in range(max(0, 3 - n)):
+                    await asyncio.sleep(0)
         return fn(*args, **kwargs)
     co.__signature__ = inspect.signature(fn)
     return co
